@@ -433,6 +433,20 @@ impl<T: Wire, const N: usize> Wire for [T; N] { open spec fn bytes(&self) -> Seq
             proof { lemma_concat_take_step(self@, __it.index@ as int); }
 //@ end
 
+// Cow: owned or borrowed storage must not matter -- the stream is the stream of the value it dereferences to
+/// std model (trusted): what a Cow dereferences to, whichever variant it is
+pub uninterp spec fn cow_view<'a, 'b, T: ?Sized + ToOwned>(c: &'b std::borrow::Cow<'a, T>) -> &'b T;
+pub assume_specification<'a, 'b, T: ?Sized + ToOwned>[ <std::borrow::Cow<'a, T> as std::ops::Deref>::deref ](c: &'b std::borrow::Cow<'a, T>) -> (r: &'b T)
+    ensures r == cow_view(c);
+impl<'a, T: Wire + Clone> Wire for std::borrow::Cow<'a, T> { open spec fn bytes(&self) -> Seq<u8> { cow_view(self).bytes() } }
+//@ impl crates/stable_hash/src/lib.rs :: impl<T: StableHash + Clone> StableHash for std::borrow::Cow<'_, T>
+//@ extra
+    proof fn prefix_free(a: &Self, b: &Self, ta: Seq<u8>, tb: Seq<u8>) {
+        T::prefix_free(cow_view(a), cow_view(b), ta, tb);
+    }
+//@ member stable_hash
+//@ end
+
 // VecDeque: the hash depends on the element SEQUENCE (the view), not on where the ring buffer wraps (rule R16)
 impl<T: Wire> Wire for std::collections::VecDeque<T> { open spec fn bytes(&self) -> Seq<u8> { seq_bytes(self@) } }
 //@ impl crates/stable_hash/src/lib.rs :: impl<T: StableHash> StableHash for std::collections::VecDeque<T>
